@@ -69,6 +69,9 @@ def spec_strategy():
                                    'random_pec', 'zero']),
         'init': st.sampled_from(['none', 'none', 'none', 'zeros', 'random',
                                  'random', 'exact', 'near']),
+        # how the caller obtained the supplied Field object
+        'prov': st.sampled_from(['direct', 'direct', 'touched', 'copy',
+                                 'dict', 'pickle', 'deepcopy']),
         'cfg': config_spec(),
         # source amplitude 10**lgamp: weak and strong sources are as legitimate
         # as O(1) ones (the system is linear)
@@ -212,6 +215,21 @@ def case_solve(spec, rec):
         ef = emg3d.Field(grid, frequency=freq)
         ef.field[:] = x
     supplied = ef is not None
+    prov = spec.get('prov', 'direct') if supplied else 'none'
+    if supplied and prov != 'direct':
+        # Fields reach solve() through many legitimate routes (a previous
+        # result, a copy, a de-serialised or un-pickled object ...)
+        import copy as _copy
+        import pickle
+        _ = (ef.fx.shape, ef.fy.shape, ef.fz.shape)      # components used
+        if prov == 'copy':
+            ef = ef.copy()
+        elif prov == 'dict':
+            ef = emg3d.Field.from_dict(ef.to_dict())
+        elif prov == 'pickle':
+            ef = pickle.loads(pickle.dumps(ef))
+        elif prov == 'deepcopy':
+            ef = _copy.deepcopy(ef)
 
     # ----- call ------------------------------------------------------------
     kw = {k: cfg[k] for k in ('cycle', 'nu_init', 'nu_pre', 'nu_coarse',
@@ -278,6 +296,14 @@ def case_solve(spec, rec):
 
     e = res.field
     # ----- unconditional parts ------------------------------------------------
+    comp = np.r_[res.fx.ravel('F'), res.fy.ravel('F'), res.fz.ravel('F')]
+    if comp.shape != e.shape or not np.array_equal(comp, e, equal_nan=True):
+        raise Violation(
+            f"field_components_detached:{'supplied' if supplied else 'returned'}:prov={prov}",
+            "Field.field and the components fx/fy/fz of the "
+            f"{'supplied' if supplied else 'returned'} field hold different "
+            f"values after solve (provenance {prov}, init={init}): max "
+            f"|diff| {float(np.nanmax(np.abs(comp - e))):.3e}")
     if e.dtype != dt:
         raise Violation("dtype", f"result {e.dtype}, source {dt}")
     if e.shape != sf.field.shape:
@@ -350,7 +376,7 @@ def case_solve(spec, rec):
     its = None
     if info is not None:
         its = (int(info['it_mg']), int(info['it_ssl']))
-    rec.cls(f"source={skind}", f"init={init}", f"reported={rep}",
+    rec.cls(f"source={skind}", f"init={init}", f"prov={prov}", f"reported={rep}",
             f"ssl={sslname}", f"cycle={cfg['cycle']}", f"case={case}",
             f"laplace={fs['laplace']}", gen.regime(fs),
             f"lgamp={spec.get('lgamp', 0)}",
